@@ -349,8 +349,14 @@ impl<'a> StructureScanState<'a> {
                 .and_then(|p| cfg.find_matching_allowlist_rule(p))
         });
 
+        // The project root itself (`.`) is not an entry of any directory: allow and deny lists
+        // decide about what a directory holds, and nothing holds the root.
+        let is_project_root = path == Path::new(".");
+
         // Check global level directory patterns
-        if let Some(cfg) = self.structure_config {
+        if let Some(cfg) = self.structure_config
+            && !is_project_root
+        {
             if cfg.has_global_dir_allowlist() {
                 // Allow mode: directory must match global allowlist
                 if !cfg.dir_matches_global_allow(path) {
@@ -393,7 +399,9 @@ impl<'a> StructureScanState<'a> {
         }
 
         // Check per-rule directory patterns
-        if let Some(rule) = matching_rule {
+        if let Some(rule) = matching_rule
+            && !is_project_root
+        {
             if rule.has_dir_allowlist() {
                 // Allow mode: directory must match allowlist
                 if !rule.dir_matches(path) {
